@@ -57,6 +57,7 @@ func main() {
 		"Kinds in gc cases have one version per (group, kind) so that 'kind' and GVK coincide. Fake controllers' Watch and fake informers' RemoveEventHandler never fail."
 	c.Rule += " (e) failing stop: RemoveEventHandler / GetInformer fail once or twice for kinds a controller watches; after every Stop attempt a controller reported as not running must have a cancelled context and no live handler; Stop retried until nil."
 	c.Rule += " " + "The collector's XR list fails with discovery errors (no watch may be stopped then). Part (f): the production XR reconciler with realtime compositions over the real engine and the real collector: one live handler per referenced kind after every reconcile, none after Stop."
+	c.Rule += " " + "Part (d) also runs a start request for a watch concurrently with the removal of its informer."
 	c.Assumptions = []string{
 		"fake informers model client-go: handlers die with a removed informer instance, RemoveEventHandler of an unknown handle is a no-op, AddEventHandler on a stopped informer fails",
 		"the fake controller starts a source immediately in Watch (a started controller-runtime controller does the same)",
